@@ -69,6 +69,9 @@ func (g *gen) query() storagesc.VerifStorageQuery {
 	for _, b := range g.blobbers {
 		q.Blobbers = append(q.Blobbers, b.key.ID)
 	}
+	for _, b := range g.eblobbers {
+		q.Blobbers = append(q.Blobbers, b.key.ID)
+	}
 	for _, v := range g.validators {
 		q.Validators = append(q.Validators, v.key.ID)
 	}
